@@ -417,7 +417,10 @@ void MatrixAppendCol(matrix* m, dvector *col)
     }
     else{
       for(i = 0; i < rowsize; i++){
-        m->data[i][lastcol] = col->data[i];
+        if(i < col->size)
+          m->data[i][lastcol] = col->data[i];
+        else
+          m->data[i][lastcol] = +0.f;
       }
     }
   }
@@ -547,7 +550,10 @@ void MatrixAppendUICol(matrix* m, uivector *col)
     }
     else{
       for(i = 0; i < rowsize; i++){
-        m->data[i][lastcol] = col->data[i];
+        if(i < col->size)
+          m->data[i][lastcol] = col->data[i];
+        else
+          m->data[i][lastcol] = +0.f;
       }
     }
   }
